@@ -255,17 +255,27 @@ From Texel.Gen Require Import GpkgWriterGen.
     Stays MODELLED (trusted; each call is mapped only after its exact shape was checked in the AST, the operations are
     defined in Gpkg/WriterOps.v from the pieces of Gpkg/Model.v and are held to the library by the run-time
     correspondence Corr/C12.v): target.handle.Begin = [op_Begin]; tx.Prepare(Table.insertSQL()) = [op_Prepare]
-    ("no such table" unless registered); gpkg.NewBinary(int32(srs id), geometry) = [op_NewBinary] (the blob stands for
-    the geometry, the srs id in its header is not modelled); stmt.Exec(data...) = [op_Exec] = the model's [insert_row]
-    on the table state of the open transaction; stmt.Close = [op_StmtClose]; tx.Commit = [op_Commit] (its error is
+    ("no such table" unless registered); gpkg.NewBinary(int32(srs id), geometry) = [op_NewBinary] (the blob is that srs
+    id for its header + the geometry); stmt.Exec(data...) = [op_Exec] = the model's [insert_row] on the table state of
+    the open transaction -- a stored geometry of the model is understood to carry its table's srs id, so [op_Exec] reports
+    a blob with another header srs id as outside the model, and the equality shows the code never passes one; stmt.Close = [op_StmtClose]; tx.Commit = [op_Commit] (its error is
     discarded by the code); target.handle.UpdateGeometryExtent = [op_UpdateGeometryExtent] = the model's [merge_extent];
     cmp.IsEmptyGeo = [geom_empty]; geom.NewExtentFromGeometry / ext.AddGeometry = [new_extent_from_geometry] /
     [add_geometry]; Feature.Geometry() / Columns() = [f_geom] / the attribute values; log.Fatalf / log.Fatalln(.., err) =
     the process ends with that error; log.Println = nothing; [int] is exact Z. *)
-Theorem C12_source_tie_writer : forall tg d fs,
-  gen_WriteFeatures tg (idle d) fs = lift_db (write_features (tg_pagesize tg) (tg_Table tg) d fs) /\
-  gen_writeFeatures tg (idle d) fs = lift_db (flush (tg_Table tg) d fs).
-Proof. exact source_tie_writer. Qed.
+Theorem C12_source_tie_writer :
+  (forall tg d fs,
+     gen_WriteFeatures tg (idle d) fs = lift_db (write_features (tg_pagesize tg) (tg_Table tg) d fs) /\
+     gen_writeFeatures tg (idle d) fs = lift_db (flush (tg_Table tg) d fs)) /\
+  (* the srs id in the geometry blob: NewBinary's first argument is recorded in the blob, and a stmt.Exec that succeeds
+     -- by the equalities above every one does, whenever the model's write succeeds -- was handed a blob whose header
+     srs id is int32 of the srs id of the table the INSERT was prepared for *)
+  (forall srsid g, fst (op_NewBinary srsid g) = (srsid, g)) /\
+  (forall w st data w', op_Exec w st data = (w', (tt, None)) ->
+     exists t ts attrs g, wd_pend w = Some (t, ts) /\
+       split_args data = Some (attrs, (go_int32 (s_id (t_srs t)), g)) /\
+       exists ts', insert_row t ts (MkFeature attrs g) = Ok ts' /\ wd_pend w' = Some (t, ts')).
+Proof. split; [exact source_tie_writer|exact source_tie_writer_srs]. Qed.
 Print Assumptions C12_source_tie_writer.
 
 (** the regenerated code runs: the stream of 7 features above (NULLs, POLYGON EMPTY, POINT EMPTY, geometry column in
@@ -285,10 +295,15 @@ Example C12_source_tie_writer_example :
      gen_writeFeatures (MkTarget ex_table 3) (idle d0) [MkFeature [VInt 1] (ex_geom 0)] = WErr (Model ArgCount)).
 Proof.
   split; [|split; [|split]].
-  - vm_compute. do 2 eexists. repeat split.
+  - destruct (create_tables empty_db [ex_table]) as [d0|x] eqn:E0; [|vm_compute in E0; discriminate E0].
+    exists d0. vm_compute in E0. injection E0 as <-.
+    match goal with |- exists d', _ /\ ?r = _ /\ _ => let v := eval vm_compute in r in
+      match v with WOk (MkWorld ?d _ _ _ _) => exists d end end.
+    split; [reflexivity|]. vm_compute. repeat split.
   - intros d. reflexivity.
   - vm_compute. reflexivity.
-  - vm_compute. eexists. repeat split.
+  - destruct (create_tables empty_db [ex_table]) as [d0|x] eqn:E0; [|vm_compute in E0; discriminate E0].
+    exists d0. vm_compute in E0. injection E0 as <-. split; [reflexivity|]. vm_compute. split; reflexivity.
 Qed.
 
 (** ** tie G2 (SQL texts): [Table.createSQL], [Table.selectSQL], [Table.insertSQL] REGENERATED from source on this
@@ -337,3 +352,171 @@ Proof.
   split; [|vm_compute; reflexivity].
   repeat constructor; cbn; intuition discriminate.
 Qed.
+
+From Texel Require Import Gpkg.SchemaOps Gpkg.ProofsGenSchema.
+From Texel.Gen Require Import GpkgSchemaGen.
+
+(** ** tie G2 (source tie of the schema side): [TargetGeopackage.CreateTables], [buildTable], [SourceGeopackage.GetTableInfo],
+    [getTableColumns], [getSpatialReferenceSystem], [geometryTypeFromString] and [SourceGeopackage.ReadFeatures] of
+    processing/gpkg/gpkg.go REGENERATED from source on this run (gen/GpkgSchemaGen.v, translator/gpkgschema.go).
+
+    Clause 1-2 (target): on a target whose gpkg_spatial_ref_sys has srs_id as its key ([srs_keyed]; true of every file
+    gpkg.Open makes) and for tables whose srs id fits the int32 that buildTable converts it to ([int32_srs]), the
+    regenerated CreateTables IS the model's [create_tables] (the function [C12_schema_copied], [C12_srs_last_table_wins],
+    [C12_fresh_file] are about) whenever that succeeds, and ends in an error (a returned error, which main.go turns into
+    log.Fatalf -- [outcome] --, or log.Fatalf in buildTable) whenever the model fails.  Error VALUES are not compared:
+    the library reports them in another order than the model.  [int32_srs] is needed: see the example below.
+    Clause 3-7 (source, for EVERY source database [srcdb]): geometryTypeFromString is [spec_gtype] (upper-cased name ->
+    0..7, unknown -> 0) and inverts the library's GeometryType.String(); getSpatialReferenceSystem is the row with that
+    id, a NULL description read as "", the zero value without a row; getTableColumns is PRAGMA table_info's name, type,
+    notnull, pk in order (when no default is a non-integer text: such a default makes rows.Scan fail, log.Fatalf);
+    GetTableInfo is one table per row of gpkg_geometry_columns, in order, with these three.
+    Clause 8 (ReadFeatures): for a table whose declared column names are the table's (distinct) and contain the geometry
+    column, and whose rows are the rows the model's layout [row_of] = [weave] gives for features [fs] (any driver
+    representation [cell_drv]: text as string or []uint8, NULL as nil, the geometry a blob that decodes to it, AT WHATEVER
+    POSITION the geometry column has -- [C12_geometry_cell_position]): exactly [fs] is sent, in order, then the channel
+    is closed.
+
+    REGENERATED, statement by statement from the AST: the loop over the tables with its three early returns; UpdateSRS
+    then the UPDATE (fix e2006e7) with the five srs fields and the id IN THIS ORDER; createSQL -> Exec -> log.Fatalf;
+    every member of gpkg.TableDescription (Name / ShortName / Description = t.Name, GeometryField = t.gcolumn,
+    GeometryType = t.gtype, SRS = int32(t.srs.ID), Z = M = gpkg.Prohibited -- the operation refuses anything else as
+    outside the model, so the equality proves these); the [for rows.Next()] loops (Fixpoints on fuel S(rows)); which Scan
+    destination receives which result column; the call order getTableColumns / geometryTypeFromString /
+    getSpatialReferenceSystem and where their results go; the switch over the type names; in ReadFeatures the column loop
+    with its index, the test [colName == source.Table.gcolumn], vals[i].([]byte) (a NULL geometry: the panic is an error
+    value), the type switch with its six cases and the fatal default, [f.columns = c], the send, rows.Err, close.
+
+    Stays MODELLED (trusted; listed at the top of the generated file; each call mapped only after its exact shape -- for
+    SQL its exact text -- was checked in the AST; defined in Gpkg/SchemaOps.v and held to SQLite and the library by the
+    run-time correspondence Corr/C12.v): op_UpdateSRS (insert unless the id is there), op_ExecUpdateSrs (every row with
+    the id), op_ExecCreate, op_AddGeometryTable, the four queries, op_Next / op_Scan.. / op_RowsColumns / op_RowsErr /
+    op_RowsClose, the idiom valPtrs[i] = &vals[i] + Scan(valPtrs...) = op_ScanAll, make + copy of a []byte = bytes_copy,
+    ff := &f = f, op_DecodeGeometry, op_ToUpper (ASCII), the gpkg constants, the representation of column.notnull /
+    column.pk as bool / N and of the definition text by its digest, log.Fatal.. = the process ends, channel send / close. *)
+Theorem C12_source_tie_schema :
+  (forall tg d tl, srs_keyed d -> Forall int32_srs tl ->
+     match create_tables d tl with
+     | Ok d' => gen_CreateTables tg (cidle d) tl = WOk (cidle d', None)
+     | Err _ => exists e, outcome (gen_CreateTables tg (cidle d) tl) = WErr e
+     end) /\
+  (forall t srss tabs txs wr x,
+     find_srs (s_id (t_srs t)) srss = Some x -> int32_srs t ->
+     match create_table (MkDb srss tabs txs wr) t with
+     | Ok _ => gen_buildTable (cidle (MkDb srss tabs txs wr)) t = WOk (cidle (MkDb srss (tabs ++ [fresh_tab t]) txs wr), None)
+     | Err _ => fails (gen_buildTable (cidle (MkDb srss tabs txs wr)) t)
+     end) /\
+  (forall s, gen_geometryTypeFromString s = WOk (spec_gtype s)) /\
+  (forall n, (n <= 7)%N -> spec_gtype (gtype_name n) = n) /\
+  (forall sd id, gen_getSpatialReferenceSystem sd id = WOk (spec_srs sd id)) /\
+  (forall sd n, forallb dflt_ok (info_of sd n) = true -> gen_getTableColumns sd n = WOk (spec_columns sd n)) /\
+  (forall src sd, (forall g, In g (sd_gc sd) -> forallb dflt_ok (info_of sd (fst (fst (fst g)))) = true) ->
+     gen_GetTableInfo src sd = WOk (spec_tables sd)) /\
+  (forall t sd st fs,
+     find_stable (t_name t) (sd_tables sd) = Some st -> map ti_name (st_info st) = map c_name (t_cols t) ->
+     NoDup (map c_name (t_cols t)) -> has_col (t_gcol t) (t_cols t) = true ->
+     Forall2 (row_rel t) fs (st_rows st) ->
+     gen_ReadFeatures (MkSource t) sd (MkOChan [] false) = WOk (MkOChan (map gfeat_of fs) true)).
+Proof. exact source_tie_schema. Qed.
+Print Assumptions C12_source_tie_schema.
+
+(** the schema clause of C12 on the regenerated code, end to end: a file [d] the model describes (well-formed registered
+    tables, [tab_wf]), opened as a SOURCE ([src_of_db]); the regenerated GetTableInfo reads its tables, the regenerated
+    CreateTables makes them in a NEW file: it succeeds, the new file has the same descriptions in the same order (columns
+    as CREATE TABLE can express them, [norm_desc]) and, for every table, the same srs row under its srs id -- also for
+    the ids the library pre-seeds *)
+Theorem C12_source_tie_schema_copy : forall src tg d,
+  NoDup (map tab_name (db_tabs d)) -> Forall (tab_wf d) (db_tabs d) ->
+  exists tl d',
+    gen_GetTableInfo src (src_of_db d) = WOk tl /\
+    gen_CreateTables tg (cidle empty_db) tl = WOk (cidle d', None) /\
+    map ts_desc (db_tabs d') = map (fun ts => norm_desc (ts_desc ts)) (db_tabs d) /\
+    (forall ts, In ts (db_tabs d) ->
+       find_srs (td_srs (ts_desc ts)) (db_srs d') = find_srs (td_srs (ts_desc ts)) (db_srs d)).
+Proof. exact schema_copy. Qed.
+Print Assumptions C12_source_tie_schema_copy.
+
+(** the rows of a table of a file the model describes, read by the regenerated ReadFeatures, are the features whose rows
+    they are ([C12_rows_all_in_order] gives [map (row_of t) fs = map Some rows] for what write_features stored) *)
+Theorem C12_source_tie_read_back : forall d t ts fs,
+  find_tab (t_name t) (db_tabs d) = Some ts ->
+  map c_name (td_cols (ts_desc ts)) = map c_name (t_cols t) ->
+  NoDup (map c_name (t_cols t)) -> has_col (t_gcol t) (t_cols t) = true ->
+  map (row_of t) fs = map Some (ts_rows ts) ->
+  gen_ReadFeatures (MkSource t) (src_of_db d) (MkOChan [] false) = WOk (MkOChan (map gfeat_of fs) true).
+Proof. exact read_back. Qed.
+Print Assumptions C12_source_tie_read_back.
+
+(** the regenerated code runs.  The file written from the 7 features above (geometry column in the MIDDLE, NULLs, empty
+    geometries) is opened as a source: GetTableInfo returns the table, ReadFeatures the 7 features; CreateTables of that
+    table and of the F10 witness (srs 3857 with another writer's row) on a new file gives the model's file, with the
+    source's row under 3857. *)
+Definition ex_written : option db :=
+  match create_tables empty_db [ex_table] with
+  | Ok d0 => match write_features 3 ex_table d0 ex_stream with Ok d => Some d | Err _ => None end
+  | Err _ => None
+  end.
+
+Example C12_source_tie_schema_example :
+  match ex_written with
+  | Some d =>
+     gen_GetTableInfo (MkSource table_zero) (src_of_db d) = WOk [ex_table] /\
+     gen_ReadFeatures (MkSource ex_table) (src_of_db d) (MkOChan [] false) = WOk (MkOChan (map gfeat_of ex_stream) true)
+  | None => False
+  end /\
+  match create_tables empty_db [ex_table; witness_table] with
+  | Ok d2 =>
+     gen_CreateTables (MkTarget ex_table 3) (cidle empty_db) [ex_table; witness_table] = WOk (cidle d2, None) /\
+     find_srs 3857 (db_srs d2) = Some witness_srs /\ List.length (db_tabs d2) = 2%nat
+  | Err _ => False
+  end /\
+  (* the same table twice: the model fails, the code returns AddGeometryTable's error *)
+  (exists e, outcome (gen_CreateTables (MkTarget ex_table 3) (cidle empty_db) [ex_table; ex_table]) = WErr e) /\
+  gen_geometryTypeFromString "MultiPolygon" = WOk 6%N /\ gen_geometryTypeFromString "CURVE" = WOk 0%N.
+Proof.
+  split; [|split; [|split; [|split]]].
+  - vm_compute. split; reflexivity.
+  - vm_compute. repeat split.
+  - vm_compute. eexists. reflexivity.
+  - vm_compute. reflexivity.
+  - vm_compute. reflexivity.
+Qed.
+
+(** the error paths of the source side run too: a NULL geometry cell (the type assertion panics), a value of a type
+    the type switch does not list (go-sqlite3 hands over a bool for a BOOLEAN column: log.Fatalf), a column default
+    that is a non-integer text (rows.Scan into *int fails: log.Fatalf), a NULL srs description (read as ""), an
+    srs id without a row (the zero value) *)
+Definition ex_source (cell : drv) (df : dfltv) : srcdb :=
+  MkSrc [("t1", "geom", "polygon", 28992)]%string
+        [MkSSrs "Amersfoort / RD New" 28992 "EPSG" 28992 12345 None]
+        [MkSTable "t1" [(0, "fid", "INTEGER", true, DfNull, 1%N); (1, "geom", "POLYGON", false, DfNull, 0%N);
+                        (2, "a", "TEXT", false, df, 0%N)]%string
+                  [[DInt 1; DBytes (Bytes 9 (Some (ex_geom 0))); DBytes (Bytes 5 None)]; [DInt 2; cell; DString 6]]].
+Definition ex_source_table : table :=
+  MkTable "t1" [MkCol "fid" "INTEGER" true 1; MkCol "geom" "POLYGON" false 0; MkCol "a" "TEXT" false 0] "geom" 3
+          (MkSrs "Amersfoort / RD New" 28992 "EPSG" 28992 12345 "").
+
+Example C12_source_tie_schema_errors :
+  gen_GetTableInfo (MkSource table_zero) (ex_source DNil DfNull) = WOk [ex_source_table] /\
+  gen_ReadFeatures (MkSource ex_source_table) (ex_source (DBytes (Bytes 0 (Some (ex_geom 4)))) DfNull) (MkOChan [] false) =
+    WOk (MkOChan [MkGFeat [AVal (VInt 1); AVal (VText 5)] (ex_geom 0); MkGFeat [AVal (VInt 2); AVal (VText 6)] (ex_geom 4)] true) /\
+  gen_ReadFeatures (MkSource ex_source_table) (ex_source DNil DfNull) (MkOChan [] false) =
+    WErr (Stop "interface conversion: interface {} is not []uint8") /\
+  gen_ReadFeatures (MkSource (set_t_gcol ex_source_table "a")) (ex_source (DOther 1) DfNull) (MkOChan [] false) =
+    WErr (Stop "gpkg.DecodeGeometry: not a GeoPackage geometry blob") /\
+  gen_ReadFeatures (MkSource (set_t_gcol ex_source_table "fid")) (ex_source (DOther 1) DfNull) (MkOChan [] false) =
+    WErr (Stop "interface conversion: interface {} is not []uint8") /\
+  gen_ReadFeatures (MkSource ex_source_table) (ex_source (DBytes (Bytes 0 (Some (ex_geom 4)))) DfNull)
+    (MkOChan [] true) = WErr (Stop "send on closed channel") /\
+  gen_getTableColumns (ex_source DNil DfText) "t1" =
+    WErr (Stop "sql: Scan error on column dflt_value: converting a string to int") /\
+  gen_getSpatialReferenceSystem (ex_source DNil DfNull) 4326 = WOk srs_zero.
+Proof. repeat split; vm_compute; reflexivity. Qed.
+
+(** why [int32_srs] is a hypothesis: an srs id beyond int32.  The model registers the table under that id; the code hands
+    int32(id) to AddGeometryTable, which does not find that srs *)
+Example C12_source_tie_schema_int32_needed :
+  let t := set_t_srs ex_table (set_s_id ex_srs 2147483653) in
+  (exists d, create_tables empty_db [t] = Ok d) /\
+  outcome (gen_CreateTables (MkTarget t 3) (cidle empty_db) [t]) = WErr (Stop "unknown srs").
+Proof. split; [eexists; reflexivity|vm_compute; reflexivity]. Qed.
